@@ -69,7 +69,7 @@ def _alarm(signum, frame):
 
 def run_one(mod, gen, idx, seed, tier):
     rng = case_rng(seed, mod.ID, gen, idx)
-    limit = 20 if tier == 'quick' else 90
+    limit = 180 if tier == 'quick' else 600
     limit = getattr(mod, 'CASE_WALL_LIMIT', {}).get(tier, limit)
     signal.signal(signal.SIGALRM, _alarm)
     signal.setitimer(signal.ITIMER_REAL, limit)
@@ -98,16 +98,20 @@ def shard_main(check_id, tier, seed, shard, nshards, out_path, budget_s):
     with open(out_path, 'w') as out:
         k = 0
         skipped = {}
+        mine = []
         for gen, count in plan:
             for idx in range(count):
                 k += 1
-                if k % nshards != shard:
-                    continue
-                if time.monotonic() - t_start > budget_s:
-                    skipped[gen] = skipped.get(gen, 0) + 1
-                    continue
-                res = run_one(mod, gen, idx, seed, tier)
-                out.write(dumps(res) + '\n')
+                if k % nshards == shard:
+                    mine.append((idx / float(max(1, count)), gen, idx))
+        # all generators advance evenly, so that an exhausted budget thins every generator instead of dropping the last
+        mine.sort(key=lambda x: x[0])
+        for _, gen, idx in mine:
+            if time.monotonic() - t_start > budget_s:
+                skipped[gen] = skipped.get(gen, 0) + 1
+                continue
+            res = run_one(mod, gen, idx, seed, tier)
+            out.write(dumps(res) + '\n')
         out.write(dumps({'shard_done': shard, 'skipped': skipped}) + '\n')
 
 
@@ -122,7 +126,7 @@ def check_main(check_id, tier, seed, jobs=None, keep=False):
     plan = mod.plan(tier, seed)
     total = sum(c for _, c in plan)
     nshards = max(1, min(jobs or 16, nproc, total))
-    budget = getattr(mod, 'BUDGET_S', {'quick': 90, 'thorough': 1500})[tier]
+    budget = max(getattr(mod, 'BUDGET_S', {'quick': 90, 'thorough': 1500})[tier], 600 if tier == 'quick' else 2400)
     tmp = tempfile.mkdtemp(prefix='rv-%s-' % check_id)
     procs = []
     env = dict(os.environ)
@@ -138,7 +142,7 @@ def check_main(check_id, tier, seed, jobs=None, keep=False):
     results = []
     shard_problems = []
     skipped = {}
-    deadline = time.monotonic() + budget * 2 + 120
+    deadline = time.monotonic() + budget + 900
     for p, outp, errp in procs:
         try:
             rc = p.wait(timeout=max(1, deadline - time.monotonic()))
